@@ -592,6 +592,8 @@ class Interp:
         return self.join_states(out_t, out_f)
 
     def static_truth(self, tv: Val):
+        if tv.has_const() and isinstance(tv.const, bool) and "static" in tv.tags:
+            return tv.const          # decided by the code alone (membership of a literal key in an exactly known key set)
         if self.config.get("fold_branches", False) and tv.has_const() and isinstance(tv.const, bool) \
                 and (not tv.deps or "static" in tv.tags):
             return tv.const
@@ -1644,7 +1646,7 @@ class Interp:
         const = NOCONST
         tags = frozenset()
         if len(rights) == 1 and isinstance(n.ops[0], (ast.In, ast.NotIn)) and left.has_const() \
-                and rights[0].kind == "dict" and rights[0].mapping is not None and "closed" in rights[0].tags:
+                and rights[0].kind == "dict" and rights[0].mapping is not None:      # mapping is kept only while the key set is exact
             present = left.const in rights[0].mapping
             const = present if isinstance(n.ops[0], ast.In) else (not present)
             tags = frozenset(["static"])
